@@ -57,7 +57,7 @@ func (c12) Runs(t Tier) int {
 }
 func (c12) RecordWidths() map[string]int { return nil }
 func (c12) RequiredProbes() []string {
-	return []string{"missing-interior-file-block", "missing-last-leaf", "missing-first-leaf", "missing-last-link-shard", "missing-nested-shard", "lookup-blocked", "lookup-not-blocked-under-fault", "kth-load-transient", "subset-fault", "hamt-depth>=3", "dedup-file-block-faulted", "missing-empty-block", "repeated-lookups-same-node", "file-reread-after-recovery", "iterate-again-after-recovery", "well-known-error-value", "file-without-blocksizes", "seek-then-read-under-fault", "store-goes-away-at-load-k", "trusted-storage", "preload-under-fault", "linksystem-with-node-reifier"}
+	return []string{"missing-interior-file-block", "missing-last-leaf", "missing-first-leaf", "missing-last-link-shard", "missing-nested-shard", "lookup-blocked", "lookup-not-blocked-under-fault", "kth-load-transient", "subset-fault", "hamt-depth>=3", "dedup-file-block-faulted", "missing-empty-block", "repeated-lookups-same-node", "file-reread-after-recovery", "iterate-again-after-recovery", "well-known-error-value", "file-without-blocksizes", "seek-then-read-under-fault", "store-goes-away-at-load-k", "seek-end-under-fault", "trusted-storage", "preload-under-fault", "linksystem-with-node-reifier"}
 }
 
 type c12Scenario struct {
@@ -392,8 +392,14 @@ func (c12) runFile(ts *tape.Set, tier Tier) *Result {
 	// fault-free run gives the number of loads
 	var lastNode datamodel.Node
 	recoveryFailure := ""
+	lengthFailure := ""
+	probeEnd := !useAsBytes && bufSeed%2 == 0
+	if probeEnd {
+		res.probe("seek-end-under-fault")
+	}
 	exec := func(p *faultPlan) (data []byte, rerr error, hit []cid.Cid, panicked bool, site, pmsg string, log []store.Event) {
 		lastNode = nil
+		lengthFailure = ""
 		st.ResetLog()
 		st.ReadPolicy = nil
 		st.Frag = fragFn(fragSeed, fragMode)
@@ -423,6 +429,18 @@ func (c12) runFile(ts *tape.Set, tier Tier) *Result {
 				rerr = fmt.Errorf("AsLargeBytes: %w", err)
 				return
 			}
+			// an end-relative seek first: under a fault it may fail, but it must
+			// never report a wrong length
+			if probeEnd {
+				end, e := rs.Seek(0, io.SeekEnd)
+				if e == nil && end != int64(len(fullContent)) {
+					lengthFailure = fmt.Sprintf("Seek(0, SeekEnd) returned %d with a nil error; the file has %d bytes", end, len(fullContent))
+				}
+				if _, e := rs.Seek(0, io.SeekStart); e != nil {
+					rerr = fmt.Errorf("seek back to start: %w", e)
+					return
+				}
+			}
 			if a > 0 {
 				if _, err := rs.Seek(a, io.SeekStart); err != nil {
 					rerr = fmt.Errorf("seek: %w", err)
@@ -445,6 +463,23 @@ func (c12) runFile(ts *tape.Set, tier Tier) *Result {
 				panicked, site, pmsg = p2, s2, "after recovery: "+m2
 			} else if aerr != nil || !bytes.Equal(again, fullContent) {
 				recoveryFailure = fmt.Sprintf("after the store recovered, a new read from the same node returned %d/%d bytes, err=%v", len(again), len(fullContent), aerr)
+			} else if lb, ok := lastNode.(datamodel.LargeBytesNode); ok {
+				// ... and a new reader's end-relative seek must see the true length
+				var end int64
+				var eerr error
+				p3, s3, m3 := guard(func() {
+					rs2, err := lb.AsLargeBytes()
+					if err != nil {
+						eerr = err
+						return
+					}
+					end, eerr = rs2.Seek(-1, io.SeekEnd)
+				})
+				if p3 {
+					panicked, site, pmsg = p3, s3, "after recovery: "+m3
+				} else if len(fullContent) > 0 && (eerr != nil || end != int64(len(fullContent))-1) {
+					recoveryFailure = fmt.Sprintf("after the store recovered, Seek(-1, SeekEnd) on a new reader of the same node returned (%d, %v); the file has %d bytes", end, eerr, len(fullContent))
+				}
 			}
 			res.probe("file-reread-after-recovery")
 		}
@@ -537,6 +572,10 @@ func (c12) runFile(ts *tape.Set, tier Tier) *Result {
 		}
 		if recoveryFailure != "" {
 			fail("c12/file/failure-remembered-after-recovery", "%s", recoveryFailure)
+			break
+		}
+		if lengthFailure != "" {
+			fail("c12/file/wrong-length-under-fault", "%s", lengthFailure)
 			break
 		}
 		if len(hit) == 0 {
